@@ -440,11 +440,23 @@ class ArgumentParser:
                     namespace._passes[flag_name] = default_value
             parser.add_argument(*option["flags"], **kwargs)
 
+        # A flag that takes no value may still be written with one (clang's
+        # -fopenmp=libomp); argparse would reject that as an error.
+        valueless = {
+            flag
+            for option in self.compiler.parser
+            if option.get("action") in ["append_const", "store_const"]
+            for flag in option["flags"]
+        }
+        argv = [
+            arg.split("=", 1)[0]
+            if "=" in arg and arg.split("=", 1)[0] in valueless
+            else arg
+            for arg in self._attach_values(argv + self.compiler.options)
+        ]
+
         # Make a best-effort attempt to parse arguments.
-        args, unrecognized = parser.parse_known_args(
-            self._attach_values(argv + self.compiler.options),
-            namespace,
-        )
+        args, unrecognized = parser.parse_known_args(argv, namespace)
         # argparse hands anything that does not look like an option to the
         # catch-all positional: response files (@file) and options whose
         # value contains a blank ("-iquotemy inc") must be reported too.
